@@ -412,6 +412,21 @@ fn run(payload: &str) -> String {
             }
             continue;
         }
+        if piece == "sx" {
+            // a SYNC request on this set, whatever its mode: on an asynchronous set it must be refused at once
+            // (Err(SyncRequestInAsyncMode)) without asking the source, registering a waker or waking anybody;
+            // on a synchronous set it is an ordinary request of depth 1
+            let mut errors = vec![];
+            let r = bundles.format_value_sync("m1", None, &mut errors);
+            let tag = match (&r, sync) {
+                (Err(_), false) => "refused".to_string(),
+                (Ok(_), false) => "ANSWERED-IN-ASYNC-MODE".to_string(),
+                (Ok(v), true) => format!("ok{}", v.as_ref().map(|c| c.len()).unwrap_or(0)),
+                (Err(_), true) => "REFUSED-IN-SYNC-MODE".to_string(),
+            };
+            outs.push(format!("sx:{}{}!{}", tag, counts(&script), dots(&log.lock().unwrap())));
+            continue;
+        }
         let o = match parse_op(k, piece) {
             None => "bad-op".to_string(),
             Some(Op::Start(c, d, api)) => {
